@@ -23,7 +23,7 @@ Record sobs := mkSO {
   ob_bal : list Z;                 (* per account index *)
   ob_pool : Z;
   ob_anom : bool;                  (* some id is held by two stores *)
-  ob_applied : Z                   (* proposal index whose configuration update is in force, -1 = none *)
+  ob_applied : list bool           (* per proposal index: its configuration update has been applied *)
 }.
 
 Global Instance pobs_eq_dec : EqDecision pobs. Proof. solve_decision. Defined.
@@ -57,7 +57,7 @@ Definition proj (np na : nat) (s : state) : sobs :=
        (map (fun i => match g_props s !! i with Some p => Some (proj_prop na p) | None => None end) (idx np))
        (map (fun a => bal s a) (idx na)) (g_pool s)
        (g_anom s || existsb (fun i => match g_props s !! i with Some p => negb (p_extra p =? 0) | None => false end) (idx np))
-       (match g_applied s with id :: _ => Z.of_N id | [] => -1 end).
+       (map (fun i => bool_decide (i ∈ g_applied s)) (idx np)).
 
 (* ---- model run: per-op ok flags and the projection after every EndBlock ---- *)
 Fixpoint drive (np na : nat) (s : state) (ts : list txop) : list bool * list sobs :=
@@ -97,7 +97,7 @@ Definition obs_diff_kind (a b : sobs) : Z :=
     match first_diff 0 (ob_bal a) (ob_bal b) with Some i => 1000 + i | None => 2 end
   else if negb (ob_pool a =? ob_pool b) then 3
   else if negb (Bool.eqb (ob_anom a) (ob_anom b)) then 4
-  else if negb (ob_applied a =? ob_applied b) then 6 else 5.
+  else if negb (bool_decide (ob_applied a = ob_applied b)) then 6 else 5.
 
 (* (case, kind, position, detail): kind 1 = ok flag of op #position differs; kind 2 = observation #position differs *)
 Definition case_mismatch (ci : Z) (c : gcase) : list Z :=
@@ -184,6 +184,7 @@ Definition has_survivors (p : pobs) : bool := existsb (fun v => 0 <=? v) (ob_ind
    6 snapshot power / validator set of the votes changed  7 passed store without completedYes / finalized with funds left
    8 deadline, goal, type, proposer or pass percentage changed (deadline may be set when voting starts)
    10 funder records survive the distribution
+   13 still in the funding stage although the recorded total has reached the recorded goal
    11 declared insufficientFunds although the goal was met or the funding deadline had not passed *)
 Definition prop_viol (h : Z) (a b : option pobs) : list Z :=
   (if rank_obs b <? rank_obs a then [1] else []) ++
@@ -193,6 +194,7 @@ Definition prop_viol (h : Z) (a b : option pobs) : list Z :=
       (if one_store (ob_stores pb) then [] else [2]) ++
       (if (ob_total pb =? indiv_sum pb) || (8 <=? ob_stores pb) then [] else [3]) ++
       (if (ob_stores pb =? 1) && (ob_status pb =? 1) && (ob_total pb <? ob_goal pb) then [4] else []) ++
+      (if (ob_stores pb =? 1) && (ob_status pb =? 0) && (ob_goal pb <=? ob_total pb) then [13] else []) ++
       (if (ob_stores pb =? 2) && negb (ob_outcome pb =? 5) then [7] else []) ++
       (if (8 <=? ob_stores pb) && (ob_stores pb <? 16) && negb (ob_total pb =? 0) then [7] else []) ++
       (if (ob_stores pb =? 8) && has_survivors pb && negb (rank_obs a =? 4) then [10] else []) ++
@@ -254,18 +256,20 @@ Fixpoint obs_viol (bi : Z) (prev : sobs) (obs : list sobs) (infos : list binfo) 
       props_viol bi (ob_h b) 0 info (match negs with n :: _ => n | [] => [] end) drift (newly_finalized (ob_props prev) (ob_props b)) (ob_props prev) (ob_props b) ++
       (if wealth b <=? wealth prev then [] else [bi; -1; 9; 0]) ++     (* 9: value appeared *)
       (* 12: a configuration update came into force whose proposal is not recorded as passed (outcome completedYes) *)
-      (if ob_applied b =? ob_applied prev then []
-       else let i := ob_applied b in
-            match nth_error (ob_props b) (Z.to_nat i) with
-            | Some (Some pb) => if ob_outcome pb =? 5 then [] else [bi; i; 12; classify 12 i info [] drift 0 None (Some pb)]
-            | _ => [bi; i; 12; 0]
-            end) ++
+      flat_map (fun x : Z * (bool * (bool * option pobs)) =>
+                  match x with
+                  | (i, (true, (false, Some pb))) => if ob_outcome pb =? 5 then [] else [bi; i; 12; 0]
+                  | (i, (true, (false, None))) => [bi; i; 12; 0]
+                  | _ => []
+                  end)
+               (zip (map Z.of_N (idx (length (ob_applied b))))
+                    (zip (ob_applied b) (zip (ob_applied prev ++ repeat false (length (ob_applied b))) (ob_props b)))) ++
       obs_viol (bi + 1) b r (match infos with _ :: p => p | [] => [] end) (match negs with _ :: n => n | [] => [] end)
                 (match drifts with _ :: n => n | [] => [] end)
   end.
 
 Definition case_monitor (ci : Z) (c : gcase) : list Z :=
-  let s0 := mkSO 0 (map (fun _ => None) (idx (c_np c))) (c_init c) (c_pool c) false (-1) in
+  let s0 := mkSO 0 (map (fun _ => None) (idx (c_np c))) (c_init c) (c_pool c) false (map (fun _ => false) (idx (c_np c))) in
   let v := obs_viol 0 s0 (c_obs c) (block_infos (c_ops c) (c_ok c) bi_empty)
                     (neg_cum (c_ops c) (c_ok c) []) (drift_cum (c_ops c) (c_ok c) [] []) in
   (* flatten to (case, block, proposal, code, class) *)
